@@ -39,9 +39,11 @@ TAllowed(lk, held) ==
 TDiscipline == HasLocks => \A j \in 1 .. Len(Ev.locks) : Ev.locks[j].k = "want" => TAllowed(Ev.locks[j], Ev.locks[j].held)
 
 \* per thread, every step releases what it acquired
+\* ("got": a try_read / try_write / try_lock that succeeded -- it cannot wait, so the discipline does not apply to it, but
+\* it has to be given back like any other)
 Count(t, k) == Cardinality({ j \in 1 .. Len(Ev.locks) : Ev.locks[j].t = t /\ Ev.locks[j].k = k })
 \* (free-running parallel clients: the records are de-duplicated, the harness reports the two totals instead)
-TBalanced == IF HasLocks /\ "wants" \in DOMAIN Ev THEN Ev.wants = Ev.rels ELSE HasLocks => \A t \in { Ev.locks[j].t : j \in 1 .. Len(Ev.locks) } : Count(t, "want") = Count(t, "rel")
+TBalanced == IF HasLocks /\ "wants" \in DOMAIN Ev THEN Ev.wants = Ev.rels ELSE HasLocks => \A t \in { Ev.locks[j].t : j \in 1 .. Len(Ev.locks) } : Count(t, "want") + Count(t, "got") = Count(t, "rel")
 
 \* only the four lock classes exist
 TClasses == HasLocks => \A j \in 1 .. Len(Ev.locks) : Ev.locks[j].c \in {"shard", "em", "policy", "ring"}
